@@ -19,6 +19,12 @@ let handle toks = match toks with
        "OK " ^ OStr.concat " " [bool01 (formatVersion_op_eq a b); rb (formatVersion_op_lt a b); bool01 (formatVersion_op_ne a b);
                           rb (formatVersion_op_gt a b); rb (formatVersion_op_le a b); rb (formatVersion_op_ge a b);
                           bool01 (formatVersion_canRead a b); bool01 (formatVersion_canWrite a b)]) ^ " ## " ^ spec
+  | "ctor" :: _n :: vs ->
+    let r = show_res (fun a ->
+        let x = string_of_z a.formatVersion_vx and y = string_of_z a.formatVersion_vy and z = string_of_z a.formatVersion_vz in
+        x ^ " " ^ y ^ " " ^ z ^ " | 3 " ^ x ^ " " ^ y ^ " " ^ z ^ " | " ^ x ^ "." ^ y ^ "." ^ z)
+        (formatVersion_of_vector (OLst.map z_of_string vs)) in
+    r ^ " ## " ^ (if OLst.length vs = 3 then r else "ERR")
   | ["idx"; a1; a2; a3; i] -> show_res string_of_z (formatVersion_op_index (fv a1 a2 a3) (z_of_string i))
   | ["open"; x; y; z; mode; force; defect] ->
     let m = (match mode with "rw" -> ReadWrite | "ro" -> ReadOnly | _ -> Overwrite) in
